@@ -6,6 +6,8 @@ import (
 	"bytes"
 	"errors"
 	"fmt"
+	"io"
+	"os"
 	"time"
 
 	modbus "github.com/aldas/go-modbus-client"
@@ -13,7 +15,28 @@ import (
 )
 
 func init() {
-	Register(&Property{ID: "C07", Run: runC07, Strata: strataC07})
+	Register(&Property{ID: "C07", Run: runC07, Strata: strataC07, Sweep: sweepC07})
+}
+
+// sweepC07: for every client kind x function x {normal, exception} reply of a small request: every single cut
+// position (1..14, wrapping at the reply length) x three delay classes before the second chunk, plus the
+// byte-per-read plan. Complete for replies of up to 15 bytes.
+func sweepC07(tier string) []Stratum {
+	var out []Stratum
+	for kind := 0; kind < 3; kind++ {
+		for fi := range AllFCs {
+			for _, exc := range []int32{0, 4} {
+				for p := int32(0); p < 14; p++ {
+					for g := int32(0); g < 3; g++ {
+						out = append(out, Stratum{Prefix: []int32{int32(kind), int32(fi)}, Named: map[string]int32{"sizeclass": 3, "exc": exc, "cutmode": 1, "cutparam": p, "gap": g}})
+					}
+				}
+				out = append(out, Stratum{Prefix: []int32{int32(kind), int32(fi)}, Named: map[string]int32{"sizeclass": 3, "exc": exc, "cutmode": 3, "gap": 0}})
+				out = append(out, Stratum{Prefix: []int32{int32(kind), int32(fi)}, Named: map[string]int32{"sizeclass": 3, "exc": exc, "cutmode": 3, "gap": 1}})
+			}
+		}
+	}
+	return out
 }
 
 // strataC07: forced scenario-tape prefixes. Order of draws in genC1Base/genChunks:
@@ -28,15 +51,23 @@ func strataC07(tier string) [][]int32 {
 	return out
 }
 
-func genC07(rc *RunCtx) (*C1, bool) {
+func genC07(rc *RunCtx) (*C1, bool) { return genC07Kind(rc, -1) }
+
+func genC07Kind(rc *RunCtx, kind int) (*C1, bool) {
 	t := rc.Scen
-	sc, ok := genC1Base(t, true)
+	sc, ok := genC1BaseKind(t, true, kind)
 	if !ok {
 		return sc, false
 	}
 	sc.Chunks = genChunks(t, len(sc.Reply))
-	if sc.Kind != KSerial || true {
-		sc.EOFWithLast = t.Chance(1, 10)
+	sc.EOFWithLast = t.Chance(1, 10)
+	if sc.Kind == KSerial && t.Chance(1, 4) {
+		// serial libraries differ in how they report a timeout that cuts a read short: data together with a tolerated error
+		for i := range sc.Chunks {
+			if t.Chance(1, 3) {
+				sc.Chunks[i].Err = []error{io.EOF, os.ErrDeadlineExceeded}[t.Choose(2)]
+			}
+		}
 	}
 	// a timeout must never be legitimate: the whole reply is delivered within half the read timeout
 	if need := 2*totalGap(sc.Chunks) + 50*time.Millisecond; sc.ReadTimeout < need {
@@ -52,10 +83,33 @@ func runC07(rc *RunCtx) {
 		rc.Probe("ctor_refused")
 		return
 	}
+	// sometimes a second call follows on the same client; the first response is held across it
+	var sc2 *C1
+	if !rc.Scen.Has("cutmode") && rc.Scen.Chance(1, 5) {
+		if n, ok := genC07Kind(rc, int(sc.Kind)); ok {
+			n.ReadTimeout = sc.ReadTimeout // one client, one configuration
+			if need := 2*totalGap(n.Chunks) + 50*time.Millisecond; sc.ReadTimeout < need {
+				sc.ReadTimeout, n.ReadTimeout = need, need
+			}
+			n.PortTimeout, n.TOStyle, n.Flusher, n.WriteTimeout, n.Hooks = sc.PortTimeout, sc.TOStyle, sc.Flusher, sc.WriteTimeout, sc.Hooks
+			sc.Then, sc2 = n, n
+		}
+	}
 	out := RunC1(rc, sc)
 	rc.Desc = sc.describe()
 	rc.Nontrivial = len(sc.Chunks) >= 2
 	checkC07(rc, sc, out)
+	if sc2 != nil && len(out.Next) == 1 {
+		rc.Probe("second_call_on_same_client")
+		checkC07(rc, sc2, out.Next[0])
+		// the response handed out by the first call must not be affected by the second exchange
+		if out.Err == nil && !isNilResponse(out.Resp) && !sc.IsExc && bytes.Equal(sc.Reply, sc.Full0()) {
+			if got := out.Resp.Bytes(); !bytes.Equal(got, sc.Reply) && len(out.Consumed) == len(sc.Reply) {
+				rc.Violate("earlier_response_changed", fmt.Sprintf("client=%s|fc=%d", sc.Kind, sc.Req.FC),
+					"after a second call on the same client the first call's response re-encodes to %x, it was %x", trunc(got, 40), trunc(sc.Reply, 40))
+			}
+		}
+	}
 }
 
 func cutClass(sc *C1) string {
